@@ -405,6 +405,10 @@ func (v *Vue) callFunc(ctx *VueContext, fn any, args ...any) (any, error) {
 		// Try to convert the argument to the expected type
 		if argVal.Type().AssignableTo(argType) {
 			in[i] = argVal
+		} else if isNumericKind(argVal.Kind()) && argType.Kind() == reflect.String {
+			// a number passed to a string parameter is printed, not reinterpreted as a code point
+			converted, _ := convertValue(argVal, argType)
+			in[i] = converted.Convert(argType)
 		} else if argVal.Type().ConvertibleTo(argType) {
 			in[i] = argVal.Convert(argType)
 		} else {
@@ -440,6 +444,10 @@ func (v *Vue) callFunc(ctx *VueContext, fn any, args ...any) (any, error) {
 	default:
 		return nil, fmt.Errorf("function returns too many values")
 	}
+}
+
+func isNumericKind(k reflect.Kind) bool {
+	return (k >= reflect.Int && k <= reflect.Uint64) || k == reflect.Float32 || k == reflect.Float64
 }
 
 // convertValue attempts common type conversions
